@@ -1,3 +1,4 @@
+import Bmc.Lemmas.RmcpHeader
 import Bmc.Lemmas.AcceptInv
 import Bmc.Lemmas.TamperedAuthCode
 /-! # C04 — only authentic packets addressed to this session are accepted as responses (property theorems only)
@@ -99,5 +100,31 @@ theorem tampered_authcode_is_retry (C : Ops) (hC : C.Lawful) (k : Keys) (c : Cmd
     exact classify_response C hC k c cc data seq iv hiv hm hid hseq hlen
   · rw [if_neg h]
     exact classify_tampered_code C k c cc data seq iv code hid hseq hlen h
+
+/-- THE BYTES THE AUTHCODE DOES NOT COVER. The four RMCP header bytes in front of the session wrapper are outside the
+    authenticated region (which starts at the auth-type byte). Whatever is done to them — any single bit or all 32 —
+    the reply is either classified EXACTLY as the reply with the regular header `06 00 FF 07` (same completion code, same
+    body, or the same retry), or, when the low four bits of the class byte no longer say IPMI, treated as if no valid
+    response had arrived. It can never change the value the caller receives. -/
+theorem rmcp_header_cannot_change_the_value (C : Ops) (k : Keys) (c : Cmd) (b0 b1 b2 b3 : UInt8) (rest : Bytes) :
+    classify C k c (b0 :: b1 :: b2 :: b3 :: rest) =
+      if b3 &&& 0xF = 7 then classify C k c (6 :: 0 :: 0xFF :: 7 :: rest) else .retry := by
+  unfold classify
+  rw [onReply_header C k.sess b0 b1 b2 b3 rest]
+  by_cases hc : b3 &&& 0xF = 7
+  · simp only [hc, if_true]
+  · simp only [hc, if_false]
+
+/-- in particular for the response of a conforming BMC: with ANY RMCP header whose class nibble is 7 it is still the
+    command's final response, with any other class it is a retry -/
+theorem response_with_any_header (C : Ops) (hC : C.Lawful) (k : Keys) (c : Cmd) (cc : UInt8) (data : Bytes) (seq : Nat) (iv : Bytes)
+    (hiv : iv.length = 16) (hm : (responseMsg c cc).WF) (hid : k.localID < 4294967296) (hseq : seq < 4294967296)
+    (hlen : (responseAes C k c cc data iv).length < 65536) (b0 b1 b2 b3 : UInt8) :
+    classify C k c (b0 :: b1 :: b2 :: b3 :: (responseDatagram C k c cc data seq iv).drop 4) =
+      if b3 &&& 0xF = 7 then (if isTemp cc then .retry else .final cc data) else .retry := by
+  rw [rmcp_header_cannot_change_the_value]
+  have hd : (6 : UInt8) :: 0 :: 0xFF :: 7 :: (responseDatagram C k c cc data seq iv).drop 4 = responseDatagram C k c cc data seq iv := by
+    unfold responseDatagram; simp
+  rw [hd, classify_response C hC k c cc data seq iv hiv hm hid hseq hlen]
 
 end Bmc.Proofs.C04
